@@ -540,6 +540,7 @@ def external_module(it, dotted):
     elif dotted == 'inspect':
         a['isfunction'] = Builtin('inspect.isfunction', _isfunction)
         a['signature'] = Builtin('inspect.signature', _signature)
+        a['Parameter'] = PARAM_CLS
     elif dotted == 'decimal':
         a['Decimal'] = T('Decimal')
         a['InvalidOperation'] = lib.exc_class('InvalidOperation')
@@ -624,27 +625,57 @@ class SignatureV:
         self.parameters = params
 
 
+PARAM_CLS = ClassV('Parameter')
+PARAM_EMPTY = Opaque('empty', 'inspect.Parameter.empty')
+for _k in ('POSITIONAL_ONLY', 'POSITIONAL_OR_KEYWORD', 'VAR_POSITIONAL', 'KEYWORD_ONLY', 'VAR_KEYWORD'):
+    PARAM_CLS.attrs[_k] = 'inspect.' + _k
+PARAM_CLS.attrs['empty'] = PARAM_EMPTY
+
+
+def _param(name, kind='POSITIONAL_OR_KEYWORD', default=PARAM_EMPTY):
+    """inspect.Parameter: name, kind, default (Parameter.empty when there is none; the VALUE of a default is not modelled --
+    an opaque object that is not `empty`)"""
+    o = Instance(PARAM_CLS)
+    o.attrs.update(name=name, kind='inspect.' + kind, default=default)
+    return o
+
+
+def _params_of_node(node, skip_first=False):
+    a = node.args
+    out = []
+    pos = [(x, 'POSITIONAL_ONLY') for x in a.posonlyargs] + [(x, 'POSITIONAL_OR_KEYWORD') for x in a.args]
+    ndef = len(a.defaults)
+    for i, (x, kind) in enumerate(pos):
+        has_default = i >= len(pos) - ndef
+        out.append(_param(x.arg, kind, Opaque('default', 'default of ' + x.arg) if has_default else PARAM_EMPTY))
+    if skip_first and out:
+        out = out[1:]
+    if a.vararg:
+        out.append(_param(a.vararg.arg, 'VAR_POSITIONAL'))
+    for x, d in zip(a.kwonlyargs, a.kw_defaults):
+        out.append(_param(x.arg, 'KEYWORD_ONLY', Opaque('default', 'default of ' + x.arg) if d is not None else PARAM_EMPTY))
+    if a.kwarg:
+        out.append(_param(a.kwarg.arg, 'VAR_KEYWORD'))
+    return out
+
+
+def _signature_of(params):
+    o = Instance(ClassV('Signature', node=None))
+    o.attrs['parameters'] = PyDict({p.attrs['name']: p for p in params})
+    return o
+
+
 def _signature(it, v):
     if isinstance(v, FuncDefV):
-        from .symex import param_names
-        names = param_names(v.node)
-        d = PyDict({n: n for n in names})
-        o = Instance(ClassV('Signature', node=None))
-        o.attrs['parameters'] = d
-        return o
+        return _signature_of(_params_of_node(v.node))
     if isinstance(v, BoundMethod) and isinstance(v.recv, Instance):
         m = lib.find_method(v.recv.cls, v.name)
-        from .symex import param_names
-        names = param_names(m.node)[1:]
-        o = Instance(ClassV('Signature', node=None))
-        o.attrs['parameters'] = PyDict({n: n for n in names})
-        return o
+        return _signature_of(_params_of_node(m.node, skip_first=True))
     if isinstance(v, UFunc) and getattr(v, 'params', None) is not None:
-        o = Instance(ClassV('Signature', node=None))
-        o.attrs['parameters'] = PyDict({n: n for n in v.params})
-        return o
+        # ('name=' : a parameter with a default value)
+        return _signature_of([_param(n[:-1], default=Opaque('default', 'default of ' + n)) if n.endswith('=') else _param(n)
+                              for n in v.params])
     if isinstance(v, Opaque) and '__signature__' in v.attrs:
-        o = Instance(ClassV('Signature', node=None))
-        o.attrs['parameters'] = v.attrs['__signature__']
-        return o
+        d = v.attrs['__signature__']
+        return _signature_of([x if isinstance(x, Instance) else _param(n) for n, x in d.d.items()])
     raise Unsupported('signature(%r)' % (v,))
